@@ -34,6 +34,8 @@ Lemma k_replace_hit_eq old v : k_replace_hit old v = py_eq old v.
 Proof. reflexivity. Qed.
 Lemma k_replace_mask_spec a b c : k_replace_mask a b c = if a then b else c.
 Proof. destruct a, b, c; reflexivity. Qed.
+Lemma k_replace_nan_key_spec a b : k_replace_nan_key a b = (a && b)%bool.
+Proof. destruct a, b; reflexivity. Qed.
 Lemma k_keep_unwrap_spec n b : k_keep_unwrap n b = ((n =? 1) && b)%bool. Proof. reflexivity. Qed.
 Lemma k_keep_delete_spec b : k_keep_delete b = negb b. Proof. reflexivity. Qed.
 Lemma k_name_single_spec n : k_name_single n = (n =? 1). Proof. reflexivity. Qed.
@@ -228,6 +230,8 @@ Proof.
     unfold py_eq; simpl; destruct (pyv_num x) as [[z|g]|]; try reflexivity; destruct g; reflexivity.
 Qed.
 
+(* a NaN key that is not a Python float (a numpy.float32 NaN) is compared with ==, it designates nothing *)
+Definition nan_key_ok (k : pyv) : bool := (negb (pyv_is_nan k) || is_float k)%bool.
 Definition plain_value (kd : kind) (v : pyv) : bool :=
   match kd, v with
   | KMixed, _ => true
@@ -245,7 +249,7 @@ Qed.
 
 Definition good_mapping (kd : kind) (m : list (pyv * pyv)) : Prop :=
   forall k v, In (k, v) m ->
-    (kd <> KMixed -> is_number k = true /\ plain_value kd v = true) /\
+    (kd <> KMixed -> nan_key_ok k = true /\ plain_value kd v = true) /\
     exists x, nf kd v = Ok x /\ forall k' v', In (k', v') m -> key_hits kd k' x = false.
 
 Lemma hit_mixed old c : k_replace_hit old (pyv_of_val c) = key_hits KMixed old c.
@@ -261,41 +265,51 @@ Qed.
 Lemma map_res_ext {A B} (f g : A -> res B) l : (forall x, In x l -> f x = g x) -> map_res f l = map_res g l.
 Proof. induction l; simpl; intros H; [reflexivity|]. rewrite (H a) by auto. rewrite IHl by auto. reflexivity. Qed.
 
-(* the NumPy branch of replace (Float / Int columns), for every key, value and column: a key that is no number
-   raises TypeError (np.isnan), a value NumPy cannot store raises, otherwise exactly the cells designated by the
-   key -- the NaN cells for a NaN key, the cells equal to the key otherwise -- hold the stored value *)
+(* the NumPy branch of replace (Float / Int columns), for every key, value and column: no key raises (a key that
+   is no number equals no cell), a value NumPy cannot store raises, otherwise exactly the cells designated by the
+   key -- the NaN cells for a NaN key that is a Python float, the cells equal to the key otherwise -- hold the
+   stored value *)
+Definition numeric_hits (old : pyv) (c : val) : bool :=
+  if (is_float old && pyv_is_nan old)%bool then is_nan_val c else py_eq old (pyv_of_val c).
 Theorem pass_numeric_exact kd old new cs : kd <> KMixed ->
-  pass kd old new cs =
-  if is_number old
-  then bind (np_store kd new) (fun x => Ok (map (fun c => if key_hits kd old c then x else c) cs))
-  else Raise TypeError.
+  pass kd old new cs = bind (np_store kd new) (fun x => Ok (map (fun c => if numeric_hits old c then x else c) cs)).
 Proof.
   intros Hk. assert (pass kd old new cs = pass_numeric kd old new cs) as E by (destruct kd; [congruence| |]; reflexivity).
-  rewrite E. unfold pass_numeric. destruct (is_number old); cbn [negb]; [|reflexivity].
-  destruct (np_store kd new) as [x|e]; cbn [bind]; [|reflexivity]. f_equal. apply map_ext. intros c.
-  rewrite k_replace_mask_spec. unfold key_hits. destruct kd; [congruence| |]; reflexivity.
+  rewrite E. unfold pass_numeric.
+  destruct (np_store kd new) as [x|e]; cbn [bind]; [|reflexivity]. apply f_equal. apply map_ext. intros c.
+  rewrite k_replace_mask_spec, k_replace_nan_key_spec. reflexivity.
+Qed.
+Lemma numeric_hits_key_hits kd old c : kd <> KMixed -> nan_key_ok old = true -> numeric_hits old c = key_hits kd old c.
+Proof.
+  intros Hk H. unfold numeric_hits, key_hits, nan_key_ok in *.
+  destruct (pyv_is_nan old); simpl in H.
+  - rewrite H. simpl. destruct kd; [congruence| |]; reflexivity.
+  - rewrite andb_false_r. reflexivity.
 Qed.
 
 Definition numeric_kind (kd : kind) : bool := match kd with KMixed => false | _ => true end.
 Theorem pass_numeric_exact_b kd old new cs : numeric_kind kd = true ->
-  pass kd old new cs =
-  if is_number old
-  then bind (np_store kd new) (fun x => Ok (map (fun c => if key_hits kd old c then x else c) cs))
-  else Raise TypeError.
-Proof. intros H. apply pass_numeric_exact. intros E. subst. discriminate. Qed.
+  pass kd old new cs = bind (np_store kd new) (fun x => Ok (map (fun c => if numeric_hits old c then x else c) cs))
+  /\ (nan_key_ok old = true -> forall c, numeric_hits old c = key_hits kd old c).
+Proof.
+  intros H. assert (kd <> KMixed) as Hk by (intros E; subst; discriminate).
+  split; [apply pass_numeric_exact; exact Hk|]. intros Hn c. apply numeric_hits_key_hits; assumption.
+Qed.
 
 Lemma pass_ok kd old new x cs :
-  (kd <> KMixed -> is_number old = true /\ plain_value kd new = true) ->
+  (kd <> KMixed -> nan_key_ok old = true /\ plain_value kd new = true) ->
   nf kd new = Ok x ->
   pass kd old new cs = Ok (map (fun c => if key_hits kd old c then x else c) cs).
 Proof.
   intros Hn Hx. destruct kd.
   - unfold pass, pass_mixed. apply map_res_ok. intros c _. rewrite hit_mixed.
     destruct (key_hits KMixed old c); [|reflexivity]. rewrite store_mixed_spec. exact Hx.
-  - destruct Hn as [Hk Hp]; [discriminate|]. rewrite pass_numeric_exact by discriminate. rewrite Hk.
-    rewrite (np_store_nf KFloat new) by (auto; discriminate). rewrite Hx. reflexivity.
-  - destruct Hn as [Hk Hp]; [discriminate|]. rewrite pass_numeric_exact by discriminate. rewrite Hk.
-    rewrite (np_store_nf KInt new) by (auto; discriminate). rewrite Hx. reflexivity.
+  - destruct Hn as [Hk Hp]; [discriminate|]. rewrite pass_numeric_exact by discriminate.
+    rewrite (np_store_nf KFloat new) by (auto; discriminate). rewrite Hx. cbn [bind]. apply f_equal. apply map_ext.
+    intros c. rewrite (numeric_hits_key_hits KFloat) by (auto; discriminate). reflexivity.
+  - destruct Hn as [Hk Hp]; [discriminate|]. rewrite pass_numeric_exact by discriminate.
+    rewrite (np_store_nf KInt new) by (auto; discriminate). rewrite Hx. cbn [bind]. apply f_equal. apply map_ext.
+    intros c. rewrite (numeric_hits_key_hits KInt) by (auto; discriminate). reflexivity.
 Qed.
 
 Lemma find_key_none kd m x : (forall k v, In (k, v) m -> key_hits kd k x = false) -> find_key kd m x = None.
